@@ -80,7 +80,11 @@ impl ToLinker {
         let file = File::open(target)
             .with_context(|| format!("Failed to open reader to {}", target.display()))?;
         Ok(Self {
-            target: target.to_path_buf(),
+            // The link lives deep inside the cache: a relative target would
+            // be resolved against the link's own directory.
+            target: target
+                .canonicalize()
+                .with_context(|| format!("Failed to resolve the path of {}", target.display()))?,
             cache: cache.to_path_buf(),
             fd: file,
             builder: IntegrityOpts::new().algorithm(algo),
@@ -155,7 +159,11 @@ impl AsyncToLinker {
             .await
             .with_context(|| format!("Failed to open reader to {}", target.display()))?;
         Ok(Self {
-            target: target.to_path_buf(),
+            // The link lives deep inside the cache: a relative target would
+            // be resolved against the link's own directory.
+            target: target
+                .canonicalize()
+                .with_context(|| format!("Failed to resolve the path of {}", target.display()))?,
             cache: cache.to_path_buf(),
             fd: file,
             builder: IntegrityOpts::new().algorithm(algo),
